@@ -380,6 +380,10 @@ fn gate_level(rep: &mut Report, shard: usize, n: usize, thorough: bool, seed: u6
     defs.push(ColDef::new("V", CT::Int16).range(-5, 5).nullable());
     defs.push(ColDef::new("V", CT::Int32));
     defs.push(ColDef::new("V", CT::Int32).range(0, 1 << 30).nullable());
+    // a category AND an enumeration on one column: a value must satisfy both
+    defs.push(ColDef::new("V", CT::Str(16)).cat("Identifier").enums(&["Mon", "Tue", "a.b"]));
+    defs.push(ColDef::new("V", CT::Str(0)).cat("Text").enums(&["Mon", "hello"]).nullable());
+    defs.push(ColDef::new("V", CT::Str(0)).cat("UpperCase").enums(&["HELLO", "ÉCOLE"]));
     // single-value ranges
     defs.push(ColDef::new("V", CT::Int16).range(3, 3));
     defs.push(ColDef::new("V", CT::Int32).range(-7, -7).nullable());
@@ -470,6 +474,19 @@ fn gate_level(rep: &mut Report, shard: usize, n: usize, thorough: bool, seed: u6
         }
         // the same gate through update, for EVERY candidate value (null first), on a row that exists
         let _ = pkg.delete_rows(msi::Delete::from(tname.clone()));
+        // an invalid value is refused whether or not any row is selected: on the empty table ...
+        for v in vals.iter().filter(|v| ref_valid(def, v) == Verdict::Invalid).take(40) {
+            let r = guarded(|| pkg.update_rows(msi::Update::table(tname.clone()).set("V", v.to_msi())));
+            rep.count("gate_updates_no_row");
+            if let Ok(Ok(())) = r {
+                rep.violation(
+                    format!("C07/update-gate-no-row/{}/{}/accepted-invalid", def.category.unwrap_or(ct_class(def.ty)), v.class()),
+                    format!("update of an EMPTY table to {} in column {} was accepted although the value is invalid for the column", v.to_json(), def.to_json()),
+                    json!({"kind": "gate", "column": def.to_json(), "value": v.to_json()}),
+                );
+                break;
+            }
+        }
         let mut have_row = false;
         let mut good: Option<V> = None;
         for v in &vals {
@@ -502,6 +519,18 @@ fn gate_level(rep: &mut Report, shard: usize, n: usize, thorough: bool, seed: u6
                                 json!({"kind": "gate", "column": def.to_json(), "value": v.to_json()}),
                             );
                         }
+                    }
+                }
+                // ... and with a condition that selects no row
+                if want == Verdict::Invalid {
+                    let r = guarded(|| pkg.update_rows(msi::Update::table(tname.clone()).set("V", v.to_msi()).with(msi::Expr::col("K").eq(msi::Expr::integer(987_654)))));
+                    rep.count("gate_updates_no_row");
+                    if let Ok(Ok(())) = r {
+                        rep.violation(
+                            format!("C07/update-gate-no-row/{}/{}/accepted-invalid", def.category.unwrap_or(ct_class(def.ty)), v.class()),
+                            format!("update (condition selects no row) to {} in column {} was accepted although the value is invalid for the column", v.to_json(), def.to_json()),
+                            json!({"kind": "gate", "column": def.to_json(), "value": v.to_json()}),
+                        );
                     }
                 }
                 rep.case(Some(fnv(format!("gateupd:{}:{:?}:{}", di, ref_valid(def, v), value_fp(v)).as_bytes())));
